@@ -30,7 +30,19 @@ def model_part(work, thorough):
         if r.violation != inv:
             raise vlib.MachineryError("RBMutex.tla %s: expected a violation of %s, got %r" % (cfg, inv, r.violation))
         runs.append({"cfg": cfg, "violates": inv})
+    # inductive invariant with Apalache (ranges over all states satisfying IndInv, 4 readers, 2 writers, 3 slots -
+    # more than TLC can enumerate): Init => IndInv, IndInv /\ Next => IndInv', IndInv => Mutex
+    for (init, inv, length) in (("Init", "IndInv", 0), ("IndInit", "IndInv", 1), ("IndInit", "Mutex", 0)):
+        o = run_apalache_rb(work, init, inv, length)
+        runs.append({"apalache": "RBMutexInd.tla", "init": init, "inv": inv, "length": length, "outcome": o})
+        if o != "NoError":
+            raise vlib.MachineryError("RBMutexInd.tla: %s => %s (length %d) is not valid: %s" % (init, inv, length, o))
     return states, trans, runs
+
+
+def run_apalache_rb(work, init, inv, length):
+    return vlib.run_apalache(work, "RBMutexInd", init, inv, length, cinit="CInit", timeout=900,
+                             tag="rbind_%s_%s_%d" % (init, inv, length), extra=["RBMutex"])
 
 
 def trace_part(work, v, pid, thorough):
